@@ -174,6 +174,52 @@ def client_field_levels(ctx, cls, in_study_class) -> dict[str, int]:
     return fields
 
 
+def trial_properties_return_copies(ctx, rule):
+    """Every public property of Trial that hands out a container (params, distributions, user_attrs, system_attrs) returns a deep copy of what the
+    Trial keeps: the private frozen-trial cache is what a repeated suggest_* answers from and what report() / set_user_attr() extend, so a caller
+    editing the returned dict would change the value a later suggest of the same name returns (shared by C20 R20.9 and C10 R10.9)."""
+    p = ctx.program
+    tr = p.cls("optuna.trial._trial.Trial")
+    ctx.require(tr is not None, f"{rule}: Trial vanished")
+    summaries = {}
+
+    class _Pol(ClientPolicy):
+        def source_level(self, e, ev):
+            if isinstance(e, ast.Call) and self_attr(e.func) in tr.methods and self_attr(e.func) not in ("_suggest",):
+                m = self_attr(e.func)
+                if m not in summaries:
+                    summaries[m] = CLEAN  # recursion guard
+                    fm = tr.methods[m]
+                    gm = CFG(fm.node, name=fm.qualname)
+                    prem = A.analyse(gm, self)
+                    lv = CLEAN
+                    for n_ in gm.stmt_nodes():
+                        if n_.kind == "stmt" and isinstance(n_.ast, ast.Return) and n_.ast.value is not None and n_ in prem:
+                            lv = max(lv, A.Evaluator(prem[n_], self).level(n_.ast.value))
+                    summaries[m] = lv
+                return summaries[m] if summaries[m] != CLEAN else None
+            return super().source_level(e, ev)
+    pol = _Pol(fields={"self._cached_frozen_trial": SHARED}, in_study_class=False)
+    n_props = 0
+    for name, f in sorted(tr.methods.items()):
+        if name.startswith("_") or "property" not in " ".join(f.decorators()) or f.node.returns is None:
+            continue
+        if not norm(f.node.returns).startswith(("dict", "list", "Dict", "List")):
+            continue
+        n_props += 1
+        g = CFG(f.node, name=f.qualname)
+        pre = A.analyse(g, pol)
+        for n in g.stmt_nodes():
+            if n.kind == "stmt" and isinstance(n.ast, ast.Return) and n.ast.value is not None:
+                lvl = A.Evaluator(pre.get(n, {}), pol).level(n.ast.value)
+                ctx.check(lvl == CLEAN, rule, f.short, "trial-property-returns-copy",
+                          message=f"Trial.{name} returns `{norm(n.ast.value)[:60]}` ({LEVEL_NAME[lvl]}): a container of the Trial's private cache (or of a shallow copy of it). "
+                                  f"A caller that edits the returned dict changes what a later suggest_* of the same name returns and what the trial reports as its "
+                                  f"parameters, while the storage keeps the value that was stored",
+                          how="copy.deepcopy(self._cached_frozen_trial.<field>)", where=where(f, n.ast))
+    ctx.floor(rule, "trial_container_properties", n_props, 4)
+
+
 def check_client_function(ctx, rule, f, pol, counters, init=None):
     g = CFG(f.node, name=f.qualname)
     pre = A.analyse(g, pol, init)
@@ -579,6 +625,8 @@ def run(ctx):
     ctx.floor("R20.8", "study_attr_dicts", n_sites, 4, exact=True)
 
     # ------------------------------------------------------------- R20.5 per-thread cache
+    ctx.rule("R20.9", "Trial's public container properties return deep copies of its private cache")
+    trial_properties_return_copies(ctx, "R20.9")
     ctx.rule("R20.5", "Study's trial cache is thread-local and reset in ask and tell before use")
     tl = p.cls("optuna.study.study._ThreadLocalStudyAttribute")
     ctx.check(any(b in ("threading.local", "local") for b in tl.bases), "R20.5", tl.module.relpath + "::" + tl.name,
